@@ -102,6 +102,17 @@ func checkC04(c *Ctx) {
 		}
 	}
 
+	if only := os.Getenv("C04_ONLY"); only != "" { // development: the families of c04c.go / c04d.go alone
+		noBin := func(prog, doc []byte, sels []string, exp c17Val, in *c17Inst, tag, fam string) {}
+		if strings.Contains(only, "read") {
+			c04ReadFamily(c, pool, settle, report, noBin)
+		}
+		if strings.Contains(only, "chunk") {
+			c04ChunkFamily(c, pool, settle, report, noBin)
+		}
+		return
+	}
+
 	// ---- (ii) heaps: json(c1) printed, and GetRootJson after `$ = c1`
 	classes := `{"s", "n", "x"}`
 	if c.Thorough() {
@@ -304,6 +315,13 @@ func checkC04(c *Ctx) {
 
 	// ---- (v) array values that share storage but differ in length / start (MC_RenderView)
 	c04ViewFamily(c, pool, settle, report)
+
+	// ---- (vi) programs that read the document, (vii) special code points at the reader's buffer boundaries (c04c.go, c04d.go)
+	addBinCase := func(prog, doc []byte, sels []string, exp c17Val, in *c17Inst, tag, fam string) {
+		binCases = append(binCases, binCase{prog: prog, doc: doc, sels: sels, exp: exp, in: in, tag: tag, fam: fam})
+	}
+	c04ReadFamily(c, pool, settle, report, addBinCase)
+	c04ChunkFamily(c, pool, settle, report, addBinCase)
 
 	// ---- (iii) leaves x positions x entry points, (iv) chains up to the reader's nesting limit (c04b.go);
 	// the runs at the limit continue in the background until waitPart2
